@@ -85,6 +85,15 @@ func c10World(tp *Tape, env *Env) (*Plan, *Violation) {
 	}
 	for _, inv := range m.invs {
 		env.St.probe("shape." + m.handlers[inv.Name].Shape)
+		if inv.Err {
+			env.St.probe("command_error_surfaced")
+		}
+	}
+	for i := range ops {
+		if ops[i].K == "advance" && i+1 < len(ops) && ops[i+1].Note == "poll" {
+			env.St.probe("wait_polled_one_tick_before_deadline")
+			break
+		}
 	}
 	if len(m.invs)+len(m.waits) >= 1 && nPolls >= 1 {
 		env.St.distinct("nontrivial", hashStr(fmt.Sprint(hashJSON(prog)), fmt.Sprint(hashJSON(ops))))
